@@ -120,8 +120,11 @@ fn(HS + ".handle", params={"event": "obj hypercorn.protocol.events:Request | obj
         "and emitted('puts')[0]['body'] == b'' and emitted('puts')[0]['more_body'] == False)", "C01"),
        ("C03.closed-delivers-nothing", "implies(old(self.closed), n_emitted('puts') == 0 and n_emitted('sent') == 0)", "C03"),
        ("C03.access.logged-at-close", "implies(isinstance(event, StreamClosed), self.g_access >= 1)", "C03"),
+       # C07: after a server generated error response the stream tells the protocol it is done, so
+       # that the connection is recycled / closed / reported idle
+       ("C07.err-idle.http", "implies(isinstance(event, Request) and not self.g_app_started, trace_any('sent', 'x', isinstance(x, StreamClosed)))", "C07"),
    ],
-   props=("C04", "C03", "C01"))
+   props=("C04", "C03", "C01", "C07"))
 fn(HS + ".idle", params={}, returns="bool", modifies=[], effect="atomic", ensures=[("HTTPStream.idle.false", "result == False", "C07")], props=("C07",))
 
 import importlib.util as _u, os as _o
